@@ -64,8 +64,18 @@ def main(argv=None):
     findings = load_known_findings()
 
     if undecided is not None:
+        # a violation of a rule the analyser understood stands even if the analysis could not finish afterwards
+        definite = [o for o in rep.obs if not o.ok and match_known(o, prop, findings) is None]
         print(f'{prop} obligations so far: {len(rep.obs)}')
         print(f'ANALYSIS-ERROR property={prop} reason={undecided}')
+        if definite and not args.replay:
+            for o in definite:
+                print(f'{o.file}:{o.line} {o.construct}  {o.rule} {o.desc}')
+                print(f'    found: {o.found}; expected: {o.expected}')
+            if not args.no_evidence:
+                write_evidence(rep, 1, extra=dict(analysis_error=undecided), seed=seed)
+            print(f'VIOLATION property={prop} replay={write_replay(rep, definite)}')
+            return 1
         if not args.no_evidence:
             write_evidence(rep, 2, extra=dict(analysis_error=undecided), seed=seed)
         return 2
